@@ -59,7 +59,7 @@ PROPS = {
     "C11": {
         "rules": [r_fmt.lexicon_rows_reader, r_feat.run, r_feat.rawinput, r_feat.csvdefault, r_misc.lexmap_shape, r_misc.homograph_accumulate, r_token.dispatch,
                   r_misc.parallel, r_char.packguard,
-                  kind_scope("dictionary::lexicon", "dictionary::unknown", "dictionary::builder"), r_map.run_user, r_misc.optkeep_dictionary],
+                  kind_scope("dictionary::lexicon", "dictionary::unknown", "dictionary::builder"), r_map.run_user, r_misc.optkeep_dictionary, r_map.run],
         "explanation": "FMT(reader side): parse_csv stores CSV column 1, 2, 3 into left_id, "
                        "right_id, word_cost (column -> WordParam::new parameter -> field, KIND "
                        "checked); PARALLEL: Lexicon::from_entries builds map, params and features "
@@ -95,7 +95,7 @@ PROPS = {
     "C16": {
         "rules": [r_fmt.run_c16, r_cost.run_c16, kind_scope("trainer::model", "raw_connector", "dual_connector", "dictionary::connector::ConnectorWrapper", "::verify"), r_scorer.scorer_build, r_kind.bins("dictgen-bin", "compile-bin"), r_fmt.csvrow,
                   r_scorer.reserved0, r_scorer.padval, r_scorer.rowrange, r_scorer.pruneset,
-                  r_misc.bigram_details_shape, r_scorer.rawbuild, r_scorer.templatesize, r_misc.rawcost],
+                  r_misc.bigram_details_shape, r_scorer.rawbuild, r_scorer.templatesize, r_misc.rawcost, r_misc.cache],
         "explanation": "FMT: bigram.left/right lines are `id TAB csv` with 1-based ids (what "
                        "parse_features and the id == line+1 check require); bigram.cost lines are "
                        "`left-word feature / right-word feature TAB cost`, matching the order in "
@@ -110,7 +110,7 @@ PROPS = {
     "C18": {
         "rules": [kind_scope("trainer", "mecab"), r_fmt.bigram_files, r_codec.run_c18,
                   r_misc.template_cover, r_misc.regex_trainer, r_misc.csvsplit, r_fmt.csvrow, r_misc.bigram_details_shape,
-                  r_writedict.chartype, r_rewrite.run, r_writedict.run, r_writedict.userrows, r_misc.trimconfig, r_char.run_key],
+                  r_writedict.chartype, r_rewrite.run, r_writedict.run, r_writedict.userrows, r_misc.trimconfig, r_char.run_key, r_misc.next_id_rule],
         "explanation": "KIND over the trainer: unigram/left/right templates, id tables and "
                        "next-id counters are never mixed (same-family rule on "
                        "extract_feature_ids), extract_left/right results reach the matching "
@@ -187,7 +187,7 @@ PROPS = {
     "C13": {
         "rules": [r_reset.run_counts, r_viterbi.pred, r_misc.enumall, r_misc.sortcmp, r_fmt.mapping_files,
                   kind_scope("mapper", "worker", "lattice", "dictionary::connector", "dictionary::Dictionary"), r_kind.bins("map-bin"),
-                  r_map.run, r_scorer.rowrange],
+                  r_map.run, r_scorer.rowrange, r_misc.counter_init],
         "explanation": "RESET(W2, counts scope): update_connid_counts reads only a lattice that "
                        "the current reset_sentence/tokenize refreshed (or returns for an empty "
                        "sentence); PRED: each counted (right word, left word) pair takes the left "
